@@ -21,7 +21,16 @@ def safe(fn):
         return None, ex
 
 
+_observe_count = 0
+
+
 def observe(readout) -> dict:
+    # applications read the other properties before is_valid as often as after: rotate the order of access
+    global _observe_count
+    _observe_count += 1
+    if _observe_count % 3 == 1:
+        for attr in ("identification_line", "payload", "end_line", "expected_checksum", "data_lines", "as_bytes")[(_observe_count // 3) % 6 :][:3]:
+            safe(lambda: getattr(readout, attr))
     valid, vex = safe(lambda: readout.is_valid)
     payload, pex = safe(lambda: readout.payload)
     raw, rex = safe(lambda: readout.as_bytes)
